@@ -14,6 +14,8 @@
 -/
 import GEVerif.Model.Labels
 import GEVerif.Lemmas.Labels
+import GEVerif.Model.LabelsE
+import GEVerif.Lemmas.LabelsE
 
 namespace GEVerif.C11
 open GEVerif GEVerif.Labels
@@ -317,5 +319,104 @@ private theorem prog_wt : wt Ex.g [] (.cls 0) Ex.prog = true := by
 
 example := C11_wellTyped_every_node Ex.spec [] (.cls 0) Ex.prog prog_wt
 example : Ex.g.terminalsFieldless = true := by decide
+
+/-! ### 6. Grammar-expansion depth mode (`extract_grammar(..., expansion_depthing=True)`)
+
+`relabelE g decl v` (Model/LabelsE.lean) is `relabel_nodes` in either mode; `decl` is the declared
+type of the position the value sits in (it determines the element type a `GengyList` remembers).
+In node mode it is `relabel`, so everything above carries over; in expansion mode the three numbers
+equal the independent traversals `nodesSpecE` (one per object, one per nested container, one per
+abstract expansion), `dttSpecE` and `weightedSpecE`; the type index is the same in both modes.
+The number of abstract expansions charged from a declared abstract type `a` to the class `c` of the
+value is `g.absDist a c`, the length of the SHORTEST chain of alternatives from `a` to `c`. -/
+
+theorem C11_node_mode_is_relabel (g : Grammar) (h : g.e = 0) (decl : Option Ty) (v : Val) :
+    relabelE g decl v = relabel g v :=
+  relabelE_eq_relabel g h decl v
+
+theorem C11_expansion_dtt_spec (g : Grammar) (h : g.e = 1) (decl : Option Ty) (v : Val) :
+    (relabelE g decl v).dtt = dttSpecE g decl v :=
+  relabelE_dtt_eq g h decl v
+
+theorem C11_expansion_nodes_spec (g : Grammar) (h : g.e = 1) (decl : Option Ty) (v : Val)
+    (hv : ArgsMatchTerminality g v) : (relabelE g decl v).nodes = nodesSpecE g decl v :=
+  relabelE_nodes_eq g h decl v hv
+
+theorem C11_expansion_weighted_spec (g : Grammar) (h : g.e = 1) (decl : Option Ty) (v : Val)
+    (hv : ArgsMatchTerminality g v) : (relabelE g decl v).weighted = weightedSpecE g decl v :=
+  relabelE_weighted_eq g h decl v hv
+
+theorem C11_expansion_types_spec (g : Grammar) (decl : Option Ty) (v : Val)
+    (hv : ArgsMatchTerminality g v) :
+    ∀ k, lookupCount (relabelE g decl v).types k = typeCountSpec v k := by
+  intro k
+  rw [relabelE_types]
+  exact C11_types_spec g v hv k
+
+/-- every sub-value, each with the declared type of its position -/
+theorem C11_expansion_every_node (g : Grammar) (h : g.e = 1) (v : Val)
+    (hv : ArgsMatchTerminality g v) :
+    ∀ x ∈ v.subvalues, ∀ decl,
+      (relabelE g decl x).nodes = nodesSpecE g decl x ∧
+      (relabelE g decl x).dtt = dttSpecE g decl x ∧
+      (relabelE g decl x).weighted = weightedSpecE g decl x ∧
+      ∀ k, lookupCount (relabelE g decl x).types k = typeCountSpec x k := by
+  intro x hx decl
+  have hx' : ArgsMatchTerminality g x := hv.sub hx
+  exact ⟨C11_expansion_nodes_spec g h decl x hx', C11_expansion_dtt_spec g h decl x,
+    C11_expansion_weighted_spec g h decl x hx', C11_expansion_types_spec g decl x hx'⟩
+
+/-- the charge for a declared abstract type is the length of a real chain of alternatives, and of
+a shortest one -/
+theorem C11_expansion_hops_shortest_chain (g : Grammar) (a c : Nat) (h : g.absDist a c ≠ INF) :
+    (∃ k, Chain g a c k ∧ g.absDist a c = k) ∧
+    ∀ k, Chain g a c k → k ≤ g.spec.classes.length + 1 → g.absDist a c ≤ k :=
+  ⟨absDist_chain g a c h, fun k hc hk => absDist_le_chain g a c k hc hk⟩
+
+theorem C11_expansion_hops_direct (g : Grammar) (a c : Nat) (h : c ∈ (g.altsOf a).getD []) :
+    g.absDist a c = 1 :=
+  absDist_direct g a c h
+
+/-- in expansion mode every object, also a base value or a field-less instance, is at distance ≥ 1 -/
+theorem C11_expansion_dtt_pos (g : Grammar) (decl : Option Ty) (v : Val) (h : v.isContainer = false) :
+    1 ≤ dttSpecE g decl v :=
+  dttSpecE_pos g decl v h
+
+namespace ExE
+/-- layered hierarchy `Expr ⊃ Atom ⊃ Const ⊃ {Lit}`, `Neg(arg: Expr)`, `Seq(xs: list[Expr])` -/
+def spec : GrammarSpec :=
+  { classes := [⟨"Expr", true, none, []⟩, ⟨"Atom", true, some 0, []⟩, ⟨"Const", true, some 1, []⟩,
+                ⟨"Lit", false, some 2, [("v", .int)]⟩, ⟨"Neg", false, some 0, [("arg", .cls 0)]⟩,
+                ⟨"Seq", false, some 0, [("xs", .list (.cls 0))]⟩],
+    start := 0, considered := [0, 1, 2, 3, 4, 5], expansion := true }
+def g : Grammar := analyse spec
+/-- `Neg(Lit(9))` -/
+def negLit : Val := .node 4 0 0 [.node 3 1 1 [.int 9]]
+/-- `Seq([Lit(1), Neg(Lit(2))])` -/
+def seqProg : Val := .node 5 0 0 [.list 1 1 [.node 3 2 2 [.int 1], .node 4 2 2 [.node 3 3 3 [.int 2]]]]
+end ExE
+
+example : ExE.g.e = 1 := by decide
+example : ExE.g.absDist 0 3 = 3 ∧ ExE.g.absDist 0 4 = 1 ∧ ExE.g.absDist 1 3 = 2 ∧ ExE.g.absDist 2 4 = INF := by
+  decide
+/-- `Lit(9)` is 2 nodes deep 2 (the object and its int); `Neg(Lit(9))` is charged the three
+expansions Expr → Atom → Const → Lit: 1 + 3 + 2 = 6 nodes, distance 2 + 3 + 1 = 6 -/
+example : (relabelE ExE.g (some (.cls 0)) ExE.negLit).nodes = 6 ∧
+    (relabelE ExE.g (some (.cls 0)) ExE.negLit).dtt = 6 ∧
+    nodesSpecE ExE.g (some (.cls 0)) ExE.negLit = 6 ∧ dttSpecE ExE.g (some (.cls 0)) ExE.negLit = 6 ∧
+    (relabelE ExE.g (some (.cls 0)) ExE.negLit).weighted = weightedSpecE ExE.g (some (.cls 0)) ExE.negLit := by
+  decide
+/-- elements of a plain list are charged against the list's element type -/
+example : (relabelE ExE.g (some (.cls 0)) ExE.seqProg).dtt = 9 ∧
+    dttSpecE ExE.g (some (.cls 0)) ExE.seqProg = 9 ∧
+    (relabelE ExE.g (some (.cls 0)) ExE.seqProg).nodes = nodesSpecE ExE.g (some (.cls 0)) ExE.seqProg := by
+  decide
+private theorem negLit_ok : ArgsMatchTerminality ExE.g ExE.negLit := by
+  intro c d e args hm ht
+  simp [ExE.negLit, Val.subvalues, Val.subvaluesList] at hm
+  rcases hm with h | h <;> first
+    | exact h.2.2.2
+    | (obtain ⟨rfl, -, -, -⟩ := h; exact absurd ht (by decide))
+example := C11_expansion_every_node ExE.g (by decide) ExE.negLit negLit_ok
 
 end GEVerif.C11
